@@ -105,7 +105,7 @@ struct _Func<F, R, NoType, NoType> : _FuncB<R, NoType, NoType>
 #define ASL_FUNC(T1, T2) \
 	Function() : f(NULL) {} \
 	Function(const Function& f) : f(f.f) { ((Function&)f).f = NULL; } \
-	void operator=(const Function& ff) { f = ff.f; ((Function&)ff).f = NULL; } \
+	void operator=(const Function& ff) { if (this != &ff) { delete f; f = ff.f; ((Function&)ff).f = NULL; } } \
 	operator bool() const { return f != 0; } \
 	template<class F> \
 	Function(const F& f) : f(new _Func<F, R, T1, T2>(f)) {} \
